@@ -3,11 +3,23 @@ C14  B-spline basis: non-negative local partition of unity, correct derivatives.
 
 Over ℝ, for ANY order `K ≥ 1` and ANY non-decreasing knot list with `K`-fold end knots (every interior
 multiplicity), with `n = len − K` basis functions and domain `[t₀, t_last]`.
-PARTIAL (DESIGN.md "C14 partial"): the identification of `bspldnev` with the one-sided derivatives of the
-Cox–de Boor piecewise polynomial is not yet a theorem (only `m = 0` and `m ≥ k`); it is covered by the
-correspondence run over all `m = 0..k` at every knot/end point, whose model mirrors the code.
+
+VALUES: support, non-negativity, Cox–de Boor values before the last knot, the right-end-point rule, partition
+of unity on the whole domain.
+DERIVATIVES (`Proofs/BSplineDeriv.lean`): order 0 of `bspldnev` is the value (`C14_deriv_zero`); at every point
+strictly before the last knot — interior knots of any multiplicity and the left end point included — the
+order-`(m+1)` output, as a function of the abscissa, is the RIGHT derivative of the order-`m` output
+(`C14_right_derivative`), and it is given by the derivative recursion over the half-open Cox–de Boor
+functions (`C14_derivative_recursion`); exactly at the last knot it is the LEFT derivative
+(`C14_left_derivative_at_right_end`) — here the right-end-point rule, evaluated with the ORIGINAL order that the
+derivative recursion carries along, is what makes the values those of the left-continuous representative of
+the same piecewise polynomial (`C14_right_end_derivatives`, `C14_one_piecewise_polynomial`); orders `m ≥ k`
+vanish (`C14_deriv_high`).  By induction on `m` these say: the `m`-th output is the `m`-th one-sided
+derivative of the Cox–de Boor piecewise polynomial, from the right everywhere and from the left at the right
+end point.
 -/
 import RateslibModel.Proofs.BSplinePoU
+import RateslibModel.Proofs.BSplineDeriv
 namespace Rateslib
 open Finset
 
@@ -136,6 +148,55 @@ theorem C14_partition_of_unity (t : List ℝ) (hs : SortedKnots t) (K : Nat) (hK
     rw [sum_ite_eq' (range n) (n - 1) (fun _ => (1 : ℝ))]
     rw [if_pos (mem_range.2 (by omega))]
 
+/-! ### derivatives -/
+
+/-- RIGHT DERIVATIVES: at every point strictly before the last knot — interior knots of any multiplicity
+and the left end point included — the order-`(m+1)` output of `bspldnev`, as a function of the abscissa,
+is the right derivative of its order-`m` output (any order `k`, any index, any carried original order). -/
+theorem C14_right_derivative (t : List ℝ) (hs : SortedKnots t) (x : ℝ) (hx : x < knot t (t.length - 1))
+    (m k i : Nat) (org : Option Nat) (hik : i + k < t.length) :
+    HasDerivWithinAt (fun y => bspldnev t y m i k org) (bspldnev t x (m + 1) i k org) (Set.Ici x) x :=
+  bspldnev_right_deriv t hs x hx m k i org hik
+
+/-- …and every order is given by the derivative recursion
+`B^(m+1)_{i,k} = (k−1)·(B^(m)_{i,k−1}/(t_{i+k−1}−t_i) − B^(m)_{i+1,k−1}/(t_{i+k}−t_{i+1}))` over the half-open
+Cox–de Boor functions (`genD (bR t)`; zero-width terms are zero): the zero-denominator guards of the code
+only skip terms that are zero. -/
+theorem C14_derivative_recursion (t : List ℝ) (hs : SortedKnots t) (x : ℝ) (hx : x < knot t (t.length - 1))
+    (m k i : Nat) (org : Option Nat) (hik : i + k < t.length) :
+    bspldnev t x m i k org = genD (bR t) t x m k i ∧
+    genD (bR t) t x 0 k i = pureB t x k i :=
+  ⟨bspldnev_eq_genD t hs x hx m k i org hik, by simp only [genD]; exact (pureB_eq_genB t x k i).symm⟩
+
+/-- the hypotheses at the right end point: order-`K` spline whose last knot has multiplicity exactly `K` -/
+theorem C14_rightEnd_of_endKnots (t : List ℝ) (hs : SortedKnots t) (K : Nat) (hK : 1 ≤ K) (he : EndKnots t K)
+    (hint : knot t (t.length - K - 1) < knot t (t.length - 1)) : RightEnd t K :=
+  ⟨hs, hK, by have := he.1; omega, he.2.2, hint⟩
+
+/-- LEFT DERIVATIVES AT THE RIGHT END POINT: the order-`(m+1)` output of `bspldnev` at the last knot is the
+LEFT derivative there of its order-`m` output. -/
+theorem C14_left_derivative_at_right_end (t : List ℝ) (hs : SortedKnots t) (K : Nat) (hK : 1 ≤ K)
+    (he : EndKnots t K) (hint : knot t (t.length - K - 1) < knot t (t.length - 1))
+    (m i : Nat) (hi : i + K < t.length) :
+    HasDerivWithinAt (fun y => bspldnev t y m i K none)
+      (bspldnev t (knot t (t.length - 1)) (m + 1) i K none) (Set.Iic (knot t (t.length - 1)))
+      (knot t (t.length - 1)) :=
+  bspldnev_left_deriv_end t K (C14_rightEnd_of_endKnots t hs K hK he hint) m i hi
+
+/-- At the last knot the outputs are the derivative recursion over the LEFT-continuous indicators
+`(t_i, t_{i+1}]` — what the right-end-point rule with the carried original order computes. -/
+theorem C14_right_end_derivatives (t : List ℝ) (hs : SortedKnots t) (K : Nat) (hK : 1 ≤ K)
+    (he : EndKnots t K) (hint : knot t (t.length - K - 1) < knot t (t.length - 1))
+    (m i : Nat) (hi : i + K < t.length) :
+    bspldnev t (knot t (t.length - 1)) m i K none = genD (bL t) t (knot t (t.length - 1)) m K i :=
+  (C14_rightEnd_of_endKnots t hs K hK he hint).bspldnev_end m i hi
+
+/-- The left- and the right-continuous recursion define the same piecewise polynomial: they agree, with all
+derivative recursions, wherever `x` is not a knot. -/
+theorem C14_one_piecewise_polynomial (t : List ℝ) (x : ℝ) (hx : ∀ j, j < t.length → knot t j ≠ x)
+    (m k i : Nat) (hik : i + k < t.length) : genD (bL t) t x m k i = genD (bR t) t x m k i :=
+  genD_bL_eq_bR t x hx m k i hik
+
 /-! Non-vacuity: cubic splines on knots (0,0,0,0,1,3,3,3,3): sorted, 4-fold ends. -/
 def exKnots : List ℝ := [0, 0, 0, 0, 1, 3, 3, 3, 3]
 example : SortedKnots exKnots ∧ EndKnots exKnots 4 := by
@@ -145,5 +206,8 @@ example : SortedKnots exKnots ∧ EndKnots exKnots 4 := by
     have : ∀ i, i ≤ 8 → knot exKnots i = [0, 0, 0, 0, 1, 3, 3, 3, 3].getD i (0 : ℝ) := fun _ _ => rfl
     interval_cases b <;> interval_cases a <;> simp [knot, exKnots]
   · refine ⟨by simp [exKnots], ?_, ?_⟩ <;> simp [knot, exKnots]
+
+example : knot exKnots (exKnots.length - 4 - 1) < knot exKnots (exKnots.length - 1) := by
+  simp [knot, exKnots]
 
 end Rateslib
